@@ -17,9 +17,9 @@ Definition corr_chunks (c : ccase) : bool :=
   cobs_eqb (c_struct c) (chunks_struct (c_size c) (c_fmt c) (c_order c) (c_pad c) (c_xs c)) &&
   cobs_eqb (c_array c) (chunks_array (c_size c) (c_fmt c) (c_order c) (c_pad c) (c_xs c)).
 
-(* every sample and the pad are encodable *)
+(* every sample and the pad are encodable (in the strictest mode: no out-of-range integer, no binary32 overflow) *)
 Definition encodable (c : ccase) : bool :=
-  forallb (fun v => match enc_sample (c_fmt c) (c_order c) v with Some _ => true | None => false end)
+  forallb (fun v => match enc_sample true (c_fmt c) (c_order c) v with Some _ => true | None => false end)
           (c_pad c :: c_xs c).
 Definition one_ok (c : ccase) (o : cobs) : bool :=
   negb (co_raised o) &&
